@@ -233,3 +233,68 @@ pub fn loop_receivers(n: usize, dispatch: Dispatch) -> Vec<Receiver> {
         })
         .collect()
 }
+
+// ---------------------------------------------------------------------------
+// oracle helpers
+
+use crate::engine::{Ev, Obs, RunOut, Snapshot};
+use crate::httpmodel::{parse_requests, parse_responses, ReqMsg, RespParse};
+
+pub fn conn_requests(sc: &Scenario, ci: usize) -> Vec<ReqMsg> {
+    parse_requests(&sent_bytes(&sc.conns[ci]))
+}
+
+/// Parse what connection `ci` received; `heads[k]` = k-th final response answers a HEAD.
+pub fn wire(out: &RunOut, ci: usize, heads: &[bool]) -> RespParse {
+    parse_responses(&out.obs.conns[ci].received.0, &|k| {
+        heads.get(k).copied().unwrap_or(false)
+    })
+}
+
+pub fn delivered(obs: &Obs) -> Vec<(String, usize, u64)> {
+    obs.events
+        .iter()
+        .filter_map(|e| match e {
+            Ev::Delivered { id, rx, seq, .. } => Some((id.clone(), *rx, *seq)),
+            _ => None,
+        })
+        .collect()
+}
+
+pub fn snap<'a>(out: &'a RunOut, label: &str) -> Option<&'a Snapshot> {
+    out.obs.snaps.get(label)
+}
+
+/// Threads that are not finished at the snapshot, as (name, state, last_op).
+pub fn blocked_threads(s: &Snapshot) -> Vec<(String, String, String)> {
+    s.threads
+        .iter()
+        .filter(|t| t.1 != "Finished")
+        .cloned()
+        .collect()
+}
+
+pub fn describe_blocked(s: &Snapshot) -> String {
+    blocked_threads(s)
+        .iter()
+        .filter(|t| t.0 != "driver")
+        .map(|t| format!("{}:{}@{}", t.0, t.1, t.2))
+        .collect::<Vec<_>>()
+        .join(", ")
+}
+
+/// Panics whose location is outside the harness sources (library or std code).
+pub fn library_panics(out: &RunOut) -> Vec<String> {
+    out.report
+        .panics
+        .iter()
+        .filter(|p| !p.location.contains("harness/src"))
+        .map(|p| format!("{} at {} (thread {:?})", p.message, p.location, p.thread_name))
+        .collect()
+}
+
+pub fn conn_of(id: &str) -> Option<usize> {
+    let s = id.strip_prefix('c')?;
+    let (a, _) = s.split_once('r')?;
+    a.parse().ok()
+}
